@@ -86,7 +86,11 @@ func (t *Tree) uncleCandidates(parent *TNode) []*TNode {
 	for i := 0; i < 7 && x != nil; i++ {
 		anc[x.Block.Hash()] = true
 		for _, u := range x.Block.Uncles() {
-			used[u.Hash()] = true
+			// an included uncle header carries the including block's version;
+			// its identity is its hash under its own height's version
+			cp := types.CopyHeader(u)
+			cp.Version = t.B.Config.GetBlockVersion(cp.Number)
+			used[cp.Hash()] = true
 		}
 		x = x.Parent
 	}
